@@ -380,6 +380,9 @@ func groupSettleOracle(r *R, regs []*groupReg, strict bool, final bool) (decided
 		if !rg.registered {
 			continue
 		}
+		if rg.kind == 0 && rg.running > 0 && !final {
+			return false // its one run is under way: look again when it is over
+		}
 		if rg.kind == 0 && (len(rg.starts) != 1 || len(rg.ends) != 1) {
 			r.Violate("C17", "do-not-run-once", "Do's function ran %d times (completed %d) while the group was running", len(rg.starts), len(rg.ends))
 			return
